@@ -24,7 +24,7 @@ from hypothesis import strategies as st
 # ---------------------------------------------------------------------------------------------- generation
 @st.composite
 def program(draw, max_pops=5, max_steps=5, allow_ancient=True, allow_true_split=True, allow_growth=True, allow_mig=True,
-            allow_remove=True, allow_pulse=True, allow_admix=True):
+            allow_remove=True, allow_pulse=True, allow_admix=True, favor_split=False):
     nsteps = draw(st.integers(1, max_steps))
     live = [dict(frozen=False)]          # mirrors the native axis order
     steps = []
@@ -38,6 +38,8 @@ def program(draw, max_pops=5, max_steps=5, allow_ancient=True, allow_true_split=
             choices += ['branch', 'branch']
             if allow_true_split:
                 choices.append('split')
+                if favor_split:
+                    choices += ['split', 'split', 'split']
             if allow_admix and len(active) >= 2:
                 choices.append('admix')
             if allow_ancient and nanc < 2:
@@ -157,14 +159,17 @@ def _nu_arg(nu0, nu1, kind, T):
     return lambda t, a=nu0, b=nu1, T=T: a + t / T * (b - a)
 
 
-def run_native(prog, return_names=False, rescale=1.0, upto=None, swipe_at=None, named=False):
+def run_native(prog, return_names=False, rescale=1.0, upto=None, swipe_at=None, named=False, orders=None):
     """Execute the program with dadi primitives. rescale=c re-expresses it relative to a reference size c times larger.
     upto=t stops the program t time units (of 2*N0 generations) before its end (the program truncated at that time).
     A frozen (ancient-sample) population is given the size its parent had when it was sampled; that number only enters the
     time-step rule.
     swipe_at=t (only while a single population exists): the history before t time units ago is replaced by equilibrium at the size
     the population had at that time.
-    named=True passes deme_ids (the program's own population names) to every primitive that accepts them."""
+    named=True passes deme_ids (the program's own population names) to every primitive that accepts them.
+    orders: optional list with one entry per step: a permutation of that step's axes; the integration of that step is carried out
+    with the axes in that order (reorder_pops before, and back afterwards). The model is the same; only the order of the directional
+    sub-steps, hence round-off and splitting error, follows the given order."""
     import dadi
     from dadi import Integration, PhiManip, Numerics
     c = rescale
@@ -272,16 +277,22 @@ def run_native(prog, return_names=False, rescale=1.0, upto=None, swipe_at=None, 
         if k == 1:
             phi = Integration.one_pop(phi, xx, T, nu=nus[0], theta0=theta, frozen=frozen[0], initial_t=t_init * c, **ids(names))
         else:
+            perm = list(orders[si]) if orders and orders[si] is not None else list(range(k))
+            if perm != list(range(k)):
+                phi = PhiManip.reorder_pops(phi, [i + 1 for i in perm])
             kw = {}
-            for i in range(k):
-                kw['nu%d' % (i + 1)] = nus[i]
-                kw['frozen%d' % (i + 1)] = frozen[i]
-                for j in range(k):
+            for a_, i in enumerate(perm):
+                kw['nu%d' % (a_ + 1)] = nus[i]
+                kw['frozen%d' % (a_ + 1)] = frozen[i]
+                for b_, j in enumerate(perm):
                     if i != j:
-                        kw['m%d%d' % (i + 1, j + 1)] = it['mig'][i][j] / c
+                        kw['m%d%d' % (a_ + 1, b_ + 1)] = it['mig'][i][j] / c
             f = {2: Integration.two_pops, 3: Integration.three_pops, 4: Integration.four_pops, 5: Integration.five_pops}[k]
-            kw.update(ids(names))
+            kw.update(ids([names[i] for i in perm]))
             phi = f(phi, xx, T, theta0=theta, **kw)
+            if perm != list(range(k)):
+                inv = [perm.index(i) for i in range(k)]
+                phi = PhiManip.reorder_pops(phi, [i + 1 for i in inv])
         last_nu = [_size_after(a, b, kind, part / it['T']) for a, b, kind in sizes]
     fs = dadi.Spectrum.from_phi(phi, [prog['ns']] * len(names), [xx] * len(names), pop_ids=list(names))
     if return_names:
